@@ -139,6 +139,53 @@ def run_case(site, subset, string_key, rrel_in_grammar, with_distractors):
     return labels == [exp[0]] * n and calls == exp[1], obs
 
 
+# ---- family 4: one attribute assigned in two alternatives, only one of them carries the RREL ---------
+def run_twice(order, alt, subset):
+    """The RREL belongs to the ATTRIBUTE: whichever alternative matched, and whichever is written first, 'alts' decides."""
+    from textx import metamodel_from_str
+
+    k = ("twice", order)
+    if k not in _MM:
+        a1, a2 = "'x' r=[D:ID|alts]", "'y' r=[D]"
+        _MM[k] = metamodel_from_str("Model: defs*=D ('alts' alts*=D)? elems*=W; D: 'd' name=ID; W: 'w' ( %s | %s );" % ((a1, a2) if order == 0 else (a2, a1)))
+    mm = _MM[k]
+    calls = []
+    keys = ["W.r", "*.r", "W.*", "*.*"]
+
+    def mk(label, target):
+        def prov(obj, attr, obj_ref):
+            calls.append(label)
+            from textx import get_model
+
+            return next(d for d in get_model(obj).defs if d.name == target)
+        return prov
+    reg = {kk: mk(kk, "p%d" % i) for i, kk in enumerate(keys) if subset[i]}
+    mm.register_scope_providers(reg)
+    text = "d x d p0 d p1 d p2 d p3 alts d x d y w %s x" % alt
+    obs = {"grammar": "W: 'w' ( %s )" % ("'x' r=[D:ID|alts] | 'y' r=[D]" if order == 0 else "'y' r=[D] | 'x' r=[D:ID|alts]"), "text": text,
+           "registered": sorted(reg), "expected": ("alts.x", [])}
+    try:
+        m = mm.model_from_str(text)
+        v = m.elems[0].r
+        label = ("alts." + v.name) if v in m.alts else ("defs." + v.name)
+        obs["observed"] = (label, list(calls))
+    except Exception as e:
+        obs["observed"] = ("%s: %s" % (type(e).__name__, e), list(calls))
+    return obs["observed"] == obs["expected"], obs
+
+
+def work4(cs):
+    u = Unit()
+    for c in cs:
+        with watchdog(10):
+            ok, obs = run_twice(*c)
+        u.case(["twice"] + list(c), nontrivial=True, sample=obs if sum(c[2]) == 2 else None)
+        u.count("family4-attribute-assigned-twice")
+        if not ok:
+            u.fail(["twice"] + list(c), {"twice": list(c)}, sig="twice %s %s" % (c[0], c[1]), what=repr(obs)[:500])
+    return u
+
+
 # ---- family 2: all four sites in one model, callable providers only -------------------------
 ALLKEYS = ["U.a", "*.a", "U.*", "*.*", "V.a", "V.*", "U.b", "*.b", "U.l", "*.l"]
 
@@ -313,7 +360,10 @@ def run(ctx):
     ctx.pmap(work2, [c2[i:i + 64] for i in range(0, len(c2), 64)])
     c3 = [(e, mi, mask) for e in EXPRS for mi in range(len(M3)) for mask in range(1, 2 ** len(KEYS3))]
     ctx.pmap(work3, [c3[i:i + 64] for i in range(0, len(c3), 64)])
+    c4 = [(order, alt, subset) for order in (0, 1) for alt in ("x", "y") for subset in itertools.product((False, True), repeat=4)]
+    ctx.pmap(work4, [c4[i:i + 16] for i in range(0, len(c4), 16)])
     return {
+        "family4": "attribute r assigned in two alternatives, one with the RREL 'alts' and one without, in both orders x matched alternative x every subset of the 4 keys",
         "rule": "case = (reference site in {U.a, U.b, U.l(list), V.a}) x (subset of its 4 applicable keys) x (which registered key is an RREL "
                 "string, if any) x (RREL in the grammar on that site or not) x (distracting keys of other rule/attribute registered or not); "
                 "non-trivial = at least one key registered or grammar RREL",
@@ -327,6 +377,9 @@ def run(ctx):
 def replay(p):
     if "multi" in p:
         return run_multi(*p["multi"])
+    if "twice" in p:
+        c = p["twice"]
+        return run_twice(c[0], c[1], tuple(c[2]))
     if "regstr" in p:
         ok, obs = run_regstr(*p["regstr"])
         return bool(ok), obs
